@@ -57,6 +57,7 @@ class Engine:
         self.fns_executed = set()
         self.alloc = itertools.count(1)
         self.qfacts = []              # global lazily-instantiated facts
+        self.contracts_used = set()
         self.use_contracts = {}       # qname -> contract (set by the driver for the function under check)
         self.max_depth = 14
         self.unroll_limit = 8
@@ -164,11 +165,26 @@ class Engine:
             self.base_arrays[key] = z3.Const(key + '!0', sort)
         return self.base_arrays[key]
 
+    def base_for(self, key, st):
+        ep = st.ghost.get('epoch', 0)
+        name = key if not ep else '%s@%d' % (key, ep)
+        if name not in self.base_arrays:
+            if key not in self.base_arrays: raise Unsupported('heap key %s used before its sort is known' % key)
+            self.base_arrays[name] = z3.Const(name + '!0', self.base_arrays[key].sort())
+        return self.base_arrays[name]
+
     def harr(self, st, key, sort=None):
         a = st.heap.get(key)
         if a is None:
-            a = self.base_array(key, sort); st.heap[key] = a
+            self.base_array(key, sort)
+            a = self.base_for(key, st); st.heap[key] = a
         return a
+
+    def havoc_all(self, st):
+        """the callee may have written anything reachable: every heap array becomes unknown"""
+        st.ghost['epoch'] = next(self.nfresh) + 1
+        for key in list(st.heap):
+            st.heap[key] = self.base_for(key, st)
 
     def hread(self, st, key, ref, rng):
         a = self.harr(st, key, z3.ArraySort(I, rng))
@@ -753,7 +769,7 @@ class Engine:
             for k, v in s2.heap.items():
                 o = st.heap.get(k)
                 if o is None:
-                    o = self.base_arrays[k]
+                    o = self.base_for(k, st)
                 if not (o is v or o.eq(v)):
                     st.heap[k] = z3.If(cond, v, o)
                 elif k not in st.heap: st.heap[k] = v
@@ -1001,7 +1017,7 @@ class Engine:
             m, r = normal[0], rets[0]
         else:
             if any(x is None for x in rets) and not all(x is None for x in rets): raise Unsupported('mixed void/non-void returns')
-            m, r = merge_states(normal, None if all(x is None for x in rets) else rets, base=lambda k: self.base_arrays[k])
+            m, r = merge_states(normal, None if all(x is None for x in rets) else rets, base=self.base_for)
         # restore caller env, keeping updates to caller variables made through references
         out_env = dict(saved_env)
         for k in saved_env:
@@ -1294,7 +1310,7 @@ class Engine:
         normal = [s for (s, o) in allo if o is None]
         other = [(s, o) for (s, o) in allo if o is not None]
         if len(normal) > 1:
-            m, _ = merge_states(normal, base=lambda k: self.base_arrays[k])
+            m, _ = merge_states(normal, base=self.base_for)
             normal = [m]
         return [(s, None) for s in normal] + other
 
@@ -1422,7 +1438,7 @@ class Engine:
         normal = [s for (s, o) in results if o is None]
         other = [(s, o) for (s, o) in results if o is not None]
         if len(normal) > 1:
-            m, _ = merge_states(normal, base=lambda k: self.base_arrays[k]); normal = [m]
+            m, _ = merge_states(normal, base=self.base_for); normal = [m]
         return [(s, None) for s in normal] + other
 
     def path_decides(self, s, c):
